@@ -928,3 +928,64 @@ def rule_order_skips_taken_nodes(ctx: Ctx, out: Collector) -> None:
                             table=table, props={'C04', 'C19', 'C03'})
     if n == 0:
         raise AnalysisError('no node-order function of a launch loop found (ON-6 anchor vanished)')
+
+
+# ---------------------------------------------------------------------------------------------
+# SW-7: the selection of the case, by worlds
+# ---------------------------------------------------------------------------------------------
+def _case_selector(ctx: Ctx):
+    """(manager method that records the selected case, storage field the record goes to): found by what it does - the manager
+    method that calls the storage method which publishes into the store of the case records."""
+    p = ctx.p
+    st = ctx.storage_class()
+    case_cls = next((ci for ci in p.classes_by_name.get('CaseResult', []) if ci.module.name.startswith('ml_pipeline_engine')), None)
+    if case_cls is None:
+        raise AnalysisError('CaseResult class not found (SW-7 anchor vanished)')
+    mgr = ctx.manager_class()
+    for u in mgr.methods.values():
+        env = FuncEnv.of(p, u)
+        for c in env.own_nodes():
+            if isinstance(c, ast.Call) and any(t[0] == 'class' and t[1] is case_cls for t in env.resolve_call(c)):
+                return u, None, case_cls
+    raise AnalysisError('no manager method records the selected case (SW-7 anchor vanished)')
+
+
+def rule_case_selection_worlds(ctx: Ctx, out: Collector) -> None:
+    """SW-7: the manager method that records the selected case, interpreted over a switch with a decider and two cases for every
+    kind of returned label: a label of a case records that case (label and node), any other value - a string no case has, None,
+    the id of the decider - raises; it never records another node."""
+    p = ctx.p
+    m, field, case_cls = _case_selector(ctx)
+    table, problems = {}, []
+    labels = [('a', 'A'), ('b', 'B'), ('zzz', None), (None, None), ('D', None), (True, None)]
+    for order in ('decider edge first', 'decider edge last'):
+        for label, want in labels:
+            def run(oracle: Oracle, label=label, order=order):
+                contents = {'node_results': {'D': ('visible', label), 'A': ('visible', 1), 'B': ('visible', 2)}}
+                mgr, storage, adag = _abstract_world(ctx, contents, dag_nodes=('I', 'D', 'A', 'B', 'SW'), dest='SW')
+                nodes = {'I': {}, 'D': {}, 'A': {}, 'B': {}, 'SW': {'is_switch': True}}
+                dec = {('D', 'SW'): {'is_switch': True}}
+                cases = {('A', 'SW'): {'case_branch': 'a'}, ('B', 'SW'): {'case_branch': 'b'}}
+                edges = {**dec, **cases} if order == 'decider edge first' else {**cases, **dec}
+                mgr.attrs['dag'].attrs['graph'] = AObj(('ext', 'networkx.DiGraph'), {'nodes': nodes, 'edges': edges})
+                Interp(p, oracle).call_unit(m, ['SW'], {}, mgr, None)
+                recs = [v.attrs['data']['SW'] for f, v in storage.attrs.items()
+                        if isinstance(v, AObj) and isinstance(v.attrs.get('data'), dict) and 'SW' in v.attrs['data']]
+                if len(recs) == 1 and isinstance(recs[0], AObj) and recs[0].cls is case_cls:
+                    return ('recorded', recs[0].attrs.get('label'), recs[0].attrs.get('node_id'))
+                return ('recorded', str(recs))
+            outs = enumerate_outcomes(run)
+            got = sorted({o[1] if o[0] == 'value' else ('raises', o[1]) for o in outs}, key=str)
+            table[f'{order}, decider returns {label!r}'] = [str(x) for x in got]
+            if want is not None:
+                if got != [('recorded', label, want)]:
+                    problems.append(f'{order}: label {label!r} -> {got} (the case {want} must be recorded)')
+            elif not got or any(x[0] != 'raises' for x in got):
+                problems.append(f'{order}: the decider returns {label!r}, which no case has -> {got} (the run must fail)')
+    cons = f'{m.module.name}::{m.qualname}::a returned label records its own case, any other value fails the run [selection worlds]'
+    if problems:
+        out.bad('SW-7', cons, p.loc(m, m.node), 'the selection of the case does not follow the returned label: ' + '; '.join(problems[:4]),
+                table=table)
+    else:
+        out.ok('SW-7', cons, p.loc(m, m.node), f'{len(table)} worlds: (decider edge first / last) x labels a, b, an unknown string, None, the '
+               f'decider\'s id, True', table=table)
